@@ -94,7 +94,7 @@ def run(ctx):
         r.check('deregister:all-slots', len(rows) == 1 and rows[0].effects[:3] == [IT, 'for _ in %s {' % IT, 'mio::Poll::deregister(poll, iter_item(%s).1.rx)' % IT],
                 ctx.site('io_loop::Inner::deregister_nonzero_channels'), built=[x.effects[:3] for x in rows])
         rows = P.table(ctx, 'io_loop::Inner::reregister_nonzero_channels', ['self', 'poll'])
-        rr = 'mio::Poll::reregister(poll, iter_item(%s).1.rx, mio::Token((iter_item(%s).0 as usize)), mio::Ready::readable(), mio::PollOpt::edge())' % (IT, IT)
+        rr = 'mio::Poll::reregister(poll, iter_item(%s).1.rx, mio::Token(iter_item(%s).0), mio::Ready::readable(), mio::PollOpt::edge())' % (IT, IT)
         r.check('reregister:all-slots-own-token', len(rows) == 1 and rr in rows[0].effects and rows[0].effects[:2] == [IT, 'for _ in %s {' % IT], ctx.site('io_loop::Inner::reregister_nonzero_channels'),
                 built=[x.effects for x in rows], expected=rr)
         ev = ctx.evaluator(0)
